@@ -1,20 +1,22 @@
 #!/bin/sh
 # Confirm a seeded mutant in a scratch worktree: compiles, existing suite passes, demo fails with it and passes without.
-# usage: seedconfirm.sh <id> <patch.diff> <demo.rs>      -> writes /tmp/seed/confirm-<id>.txt
-ID=$1; PATCH=$2; DEMO=$3
+# usage: seedconfirm.sh <id> <patch.diff> <demo.rs> [features]     -> writes /tmp/seed/confirm-<id>.txt
+ID=$1; PATCH=$2; DEMO=$3; FEAT=$4
 WT=/tmp/seedconfirm-$ID
 OUT=/tmp/seed/confirm-$ID.txt
+CARGO="cargo"; FF=""
+if [ -n "$FEAT" ]; then CARGO="cargo +nightly"; FF="--features $FEAT"; fi
 rm -rf $WT; git -C /repo worktree prune; git -C /repo worktree add --detach $WT HEAD >/dev/null 2>&1 || exit 2
 cd $WT
 export CARGO_NET_OFFLINE=true
 {
-echo "== $ID"
+echo "== $ID features=[$FEAT]"
 cp $DEMO tests/seed_demo.rs
-echo "-- demo on original:"; cargo test --offline --test seed_demo 2>&1 | grep -E "^test result|error(\[|:)" | head -3
+echo "-- demo on original:"; $CARGO test --offline $FF --test seed_demo 2>&1 | grep -E "^test result|error(\[|:)" | head -3
 git apply $PATCH && echo "-- patch applied"
-echo "-- build:"; cargo build --offline 2>&1 | tail -1
-echo "-- existing suite with mutant:"; mv tests/seed_demo.rs /tmp/seed_demo_$ID.rs; cargo test --offline 2>&1 | grep -E "^test result|FAILED|error(\[|:)" | head -8
+echo "-- build:"; $CARGO build --offline $FF 2>&1 | tail -1
+echo "-- existing suite with mutant (default features):"; mv tests/seed_demo.rs /tmp/seed_demo_$ID.rs; cargo test --offline 2>&1 | grep -E "^test result|FAILED|error(\[|:)" | head -8
 mv /tmp/seed_demo_$ID.rs tests/seed_demo.rs
-echo "-- demo with mutant:"; cargo test --offline --test seed_demo 2>&1 | grep -E "^test result|error(\[|:)" | head -3
+echo "-- demo with mutant:"; $CARGO test --offline $FF --test seed_demo 2>&1 | grep -E "^test result|error(\[|:)" | head -3
 } > $OUT 2>&1
 cd /; git -C /repo worktree remove --force $WT
